@@ -423,7 +423,11 @@ pub fn run(tier: &str, c10: bool) -> i32 {
     // ---- configuration space -----------------------------------------------------------
     let levels_small: Vec<u8> = (0..=10).chain([11, 12, 100, 255]).collect();
     let levels_long: Vec<u8> = (0..=10).collect();
-    let (cfgs_all, cfg_total) = canonical_cfgs(&[8, 9, 11, 12, 14, 15, 1, 255], true);
+    // window_bits above 15 are documented to be clamped: one class per requested value (16, 24, 40,
+    // 255) is kept instead of assuming the clamp; raw streams carry no window field, so those
+    // classes are kept for zlib framing only
+    let (cfgs_all, cfg_total) = canonical_cfgs_ext(&[8, 9, 11, 12, 14, 15, 1, 255, 16, 24, 40], true, false);
+    let cfgs_all: Vec<Cfg> = cfgs_all.into_iter().filter(|c| c.wbits <= 15 || c.zlib).collect();
     let cfgs_long: Vec<Cfg> = cfgs_all
         .iter()
         .filter(|c| (c.strat == 0) || [1u8, 2, 6, 9].contains(&c.level))
